@@ -479,6 +479,18 @@ func (encryptor *QueryDataEncryptor) getInsertPlaceholders(ctx context.Context, 
 			}
 		}
 	}
+	// The assignments of ON DUPLICATE KEY UPDATE name their columns themselves:
+	//
+	//     ... ON DUPLICATE KEY UPDATE column = ?, `table`.column2 = ?
+	valuesCount += len(insert.OnDup)
+	for _, expr := range insert.OnDup {
+		if value, ok := expr.Expr.(*sqlparser.SQLVal); ok {
+			err := encryptor.updatePlaceholderMap(valuesCount, placeholders, value, expr.Name.Name.ValueForConfig())
+			if err != nil {
+				return nil, err
+			}
+		}
+	}
 	return placeholders, nil
 }
 
@@ -519,14 +531,6 @@ func (encryptor *QueryDataEncryptor) encryptInsertValues(ctx context.Context, in
 		return values, false, err
 	}
 	encryptor.savePlaceholderSettingIntoClientSession(ctx, placeholders, schema)
-
-	// TODO(ilammy, 2020-10-13): handle ON DUPLICATE KEY UPDATE clauses
-	// These clauses are handled for textual queries. It would be nice to encrypt
-	// any prepared statement parameters that are used there as well.
-	// See "encryptInsertQuery" for reference.
-	if len(insert.OnDup) > 0 {
-		logrus.Warning("ON DUPLICATE KEY UPDATE is not supported in prepared statements")
-	}
 
 	// Now that we know the placeholder mapping,
 	// encrypt the values inserted into encrypted columns.
